@@ -156,7 +156,7 @@ fn deck_of(flop: &[usize; 3]) -> Vec<usize> {
 fn valid_pos(t: u8, r: u8) -> bool {
     t < r && r <= 48
 }
-fn succ(p: (u8, u8)) -> (u8, u8) {
+pub fn succ(p: (u8, u8)) -> (u8, u8) {
     if p.1 < 48 { (p.0, p.1 + 1) } else { (p.0 + 1, p.0 + 2) }
 }
 pub fn random_pos(rng: &mut Rng) -> (u8, u8) {
